@@ -93,7 +93,17 @@ def build_driver(work, race=False, name="driver"):
         cmd.append("-race")
     cmd += ["-o", out, "."]
     t0 = time.time()
-    r = subprocess.run(cmd, cwd=HARNESS, env=goenv(), capture_output=True, text=True)
+    hdir = HARNESS
+    if REPO != "/repo":
+        # (VERIF_REPO: a scratch copy of the tree, used when trying seeded changes without touching /repo) the harness
+        # module is copied next to the driver with its replace directive pointing at that copy
+        hdir = work.path("harness_src")
+        if not os.path.isdir(hdir):
+            shutil.copytree(HARNESS, hdir)
+            gm = os.path.join(hdir, "go.mod")
+            text = open(gm).read().replace("=> /repo", "=> " + REPO)
+            open(gm, "w").write(text)
+    r = subprocess.run(cmd, cwd=hdir, env=goenv(), capture_output=True, text=True)
     if r.returncode != 0:
         raise ToolingError("driver build failed (does /repo compile?):\n" + r.stderr[-4000:])
     log("driver built in %.1fs%s" % (time.time() - t0, " (race)" if race else ""))
